@@ -1,8 +1,8 @@
 (* C18Agree.v -- correspondence: observed answers = executable model with GENERATED tables
    (exact index, including which of several maximal artifacts is returned; exact error kind). *)
-From LV Require Import Base Inventory InventoryFacts.
+From LV Require Import Base Toml Serde Inventory InventoryFacts InventoryToml.
 From LV.Checks Require Import C18Hold.
-From LVGen Require GenInventory.
+From LVGen Require GenInventory GenSerde.
 
 Fixpoint index_of {A} (f : A -> bool) (l : list A) (i : nat) : option nat :=
   match l with [] => None | x :: l' => if f x then Some i else index_of f l' (S i) end.
@@ -35,5 +35,12 @@ Definition agrees (c : case) : bool :=
       | Err e, CkErr e' => err_eqb e e'
       | _, _ => false
       end
-  | CToml _ p r => p && r
+  | CToml arts tree p r =>
+      (* the text the implementation wrote is, as a tree, what the model's Serialize of the
+         REGENERATED schema produces, and the model's Deserialize reads it back *)
+      p && r && toml_reads_back arts tree &&
+      match tree, encode (GenSerde.s_Inventory toml_V TyString toml_M) (inv_sval arts) with
+      | Some t, Some t' => tv_same t t'
+      | _, _ => false
+      end
   end.
